@@ -74,6 +74,9 @@ pub struct Case {
     pub mode: Mode,
     /// number of warm-up generations on the same generator before the observed one
     pub warm: u32,
+    /// `unsafe_mode` the mutator objects are created with (normally = `unsafe_m`; the public API
+    /// lets them differ)
+    pub mu: bool,
 }
 
 pub const MUTS: [MutatorKind; 7] = [
@@ -93,10 +96,11 @@ impl Case {
             Mode::Arb(b) => format!("arb:{}", if b.is_empty() { "-".to_string() } else { hex(b) }),
         };
         format!(
-            "id={} P={} unsafe={} ext={} buf={} min={} max={} mask={} rate={:016x} warm={} mode={}",
+            "id={} P={} unsafe={} mu={} ext={} buf={} min={} max={} mask={} rate={:016x} warm={} mode={}",
             self.id,
             self.proto,
             self.unsafe_m as u8,
+            self.mu as u8,
             self.ext as u8,
             self.buf as u8,
             self.min,
@@ -121,13 +125,19 @@ impl Case {
             rate_bits: 0.1f64.to_bits(),
             mode: Mode::Rand(0),
             warm: 0,
+            mu: false,
         };
+        let mut mu_given = false;
         for tok in line.split_whitespace() {
             let Some((k, v)) = tok.split_once('=') else { continue };
             match k {
                 "id" => c.id = v.parse().ok()?,
                 "P" => c.proto = v.parse().ok()?,
                 "unsafe" => c.unsafe_m = v == "1",
+                "mu" => {
+                    c.mu = v == "1";
+                    mu_given = true;
+                }
                 "ext" => c.ext = v == "1",
                 "buf" => c.buf = v == "1",
                 "min" => c.min = v.parse().ok()?,
@@ -145,6 +155,9 @@ impl Case {
                 _ => {}
             }
         }
+        if !mu_given {
+            c.mu = c.unsafe_m;
+        }
         Some(c)
     }
 
@@ -152,7 +165,7 @@ impl Case {
         MUTS.iter()
             .enumerate()
             .filter(|(i, _)| self.mask >> i & 1 == 1)
-            .map(|(_, k)| k.create(self.unsafe_m))
+            .map(|(_, k)| k.create(self.mu))
             .collect()
     }
 
@@ -238,6 +251,8 @@ pub fn sample_case(rng: &mut Rng, id: u64, profile: &str, unsafe_sel: &str) -> C
             (a, b)
         }
         "mid" => (300, 900),
+        "big" => (8000, 10000),
+        "large" => (45000, 45001),
         _ => match rng.below(10) {
             0 => (0, 0),
             1 => (5, 5),
@@ -290,6 +305,9 @@ pub fn sample_case(rng: &mut Rng, id: u64, profile: &str, unsafe_sel: &str) -> C
         rate_bits,
         mode,
         warm: if rng.below(4) == 0 { 1 + rng.below(2) as u32 } else { 0 },
+        // mutator objects built with another unsafe_mode than the generator's flag (public API);
+        // never an unsafe-mode TypeConfusion on a "safe" generator: that *is* an unsafe mutation
+        mu: if rng.below(8) == 0 && (mask & 0x40) == 0 { !unsafe_m } else { unsafe_m },
     }
 }
 
@@ -506,6 +524,7 @@ fn cmd_gen(args: &[String]) {
                     rate_bits: 0.5f64.to_bits(),
                     mode: Mode::Arb(inp.clone()),
                     warm: 0,
+                    mu: false,
                 };
                 println!("{}", gen_line(&c));
                 id += 1;
